@@ -101,6 +101,7 @@ theorem C26_counterexample_first_put :
 theorem C26_partial (m : Mem) (op : Op) (nc : Nat) (q : Bool) (hd : op.derives = some (nc, q))
     (hack : (step m op).2.isAck = true) :
     (step m op).2 = .seq (m.seq + 1) ∧ Adds (step m op).1 m (m.seq + 1) nc q := by
+  rw [← stepG_walSeq] at hack ⊢
   cases op with
   | put a t =>
     simp only [Op.derives, Option.some.injEq, Prod.mk.injEq] at hd
